@@ -33,6 +33,8 @@ fn main() {
         "json-replay" => big_stack(move || jsonc::replay(&rest2)),
         "json-emit" => big_stack(move || jsonc::emit(&rest2)),
         "unicode-names" => c01::unicode_names(rest),
+        "reader-replay" => big_stack(move || reader::replay(&rest2)),
+        "reader-respell" => big_stack(move || reader::respell(&rest2)),
         "c01-replay" => big_stack(move || c01::replay(&rest2)),
         "stack-replay" => stack::replay(rest),
         "stack-emit" => stack::emit(rest),
